@@ -209,7 +209,7 @@ func instantiateGenericModel(
 		clonedStruct.Name = StandardModelNameTransformer(clonedStruct.Name, rawParamNames)
 	}
 
-	for fieldIdx, field := range rawStruct.Fields {
+	for _, field := range rawStruct.Fields {
 		// Check if this is a generic field. A bit of an ugly heuristic.
 		// Will need to re-work generic parameters later on.
 		if field.Type.Root != nil && field.Type.Root.Kind() == metadata.TypeRefKindParam {
@@ -231,8 +231,26 @@ func instantiateGenericModel(
 				)
 			}
 
-			// Re-write the type
-			clonedStruct.Fields[fieldIdx].Type = rawParamNames[replParamIdx]
+			// Re-write the type. The reduced struct omits fields that never reach the wire (unexported or
+			// tagged `json:"-"`) so raw and reduced indices may differ - match the field by name instead
+			reducedIdx := -1
+			for idx := range clonedStruct.Fields {
+				if clonedStruct.Fields[idx].Name == field.Name {
+					reducedIdx = idx
+					break
+				}
+			}
+			if reducedIdx < 0 {
+				continue
+			}
+			if int(replParamIdx) >= len(rawParamNames) {
+				return clonedStruct, fmt.Errorf(
+					"generic placeholder '%s' in field '%s' has no matching type argument",
+					field.Type.Name,
+					field.Name,
+				)
+			}
+			clonedStruct.Fields[reducedIdx].Type = rawParamNames[replParamIdx]
 		}
 
 	}
